@@ -121,6 +121,9 @@ class SimProcess:
             target = kp.globals[tname]
         kp.target_name = tname
         kp.args = args
+        kp.cq_id = id(self._args[0]) if self._args else None    # parent-side call queue: identifies the executor
+        if w.sample_registered is not None:
+            w.sample_registered("spawn")
 
         def main():
             code = 0
